@@ -128,7 +128,7 @@ PROPS["C14"] = dict(
 )
 
 PROPS["C19"] = dict(
-    modules=["Morlock.Props.C19"],
+    modules=["Morlock.Props.C19", "Morlock.Props.C19Board"],
     streams=["fenstrings", "engine"],
     level_text="Lean theorems (ALL strings). Move strings (Model.EngineM = Engine.Move / TakeBack / Reset, the model the engine stream ties to the code): on a well-formed position of a game not yet adjudicated, "
                "Move accepts a string iff it parses to a move that the REFERENCE calls legal there (move_accepted_iff, via C01.legal_perm and pseudo_nodup - the latter makes the first-match loop "
@@ -145,7 +145,7 @@ PROPS["C19"] = dict(
     rule="valid FEN x {token deletion/duplication/swap, digit inflation 0/9, long digit runs, Unicode digits & letters, NUL/tab/NBSP, field count changes, huge/negative/signed clocks} "
          "+ raw bytes + move/square strings; non-trivial = accepted, or longer than 10 runes; distinct by rune sequence",
     partial=["'well-formed value' is read as: non-nil, all views agree, re-encoding decodes to the same position; chess-level plausibility (kings, e.p. pawn) is not demanded of a FEN decoder",
-             "move_accepted_iff assumes the current position well-formed (WF): Decode does not guarantee that (castling rights without the king at home decode fine), and after a TakeBack WFplay of the restored "
+             "move_accepted_iff assumes the current position well-formed (WF): Decode does not guarantee that (castling rights without the king at home decode fine); for boards descending from a well-formed set-up by generated moves, take-backs and forks the hypothesis is discharged (C19Board.move_accepted_iff_genBoard, through C07Board's LineWF invariant over the history nodes); from a decoded FEN that is not WF the engine stream decides"
              "position is not re-derived (no invariant over history nodes) - there the engine stream decides"],
     modelled=["board/fen/fen.go Decode; board/move.go ParseMove; board/square.go ParseSquare(Str), ParseFile, ParseRank -> Model.Fen; engine/engine.go Reset, Move, TakeBack, Position -> Model.EngineM"],
 )
